@@ -6,6 +6,8 @@ import (
 	"encoding/hex"
 	"encoding/json"
 	"fmt"
+	"strconv"
+	"strings"
 	"time"
 
 	"github.com/cloudwego/thriftgo/internal/verifsim/simrt"
@@ -311,7 +313,17 @@ func pluginProgram(p *simrt.Proc, raw json.RawMessage) int {
 					p.Note("req.panic", fmt.Sprint(r))
 				}
 			}()
-			req, err := plugin.UnmarshalRequest(in)
+			var req *plugin.Request
+			var err error
+			if pluginPredatesTrailer(p.BuildVersion()) {
+				// an executable linked against a thriftgo older than v0.4.2 knows nothing of the data
+				// trailer and of compressed includes: it reads the struct and stops
+				req = plugin.NewRequest()
+				_, err = req.FastRead(in)
+				p.Note("req.decoder", "pre-trailer")
+			} else {
+				req, err = plugin.UnmarshalRequest(in)
+			}
 			if err != nil {
 				p.Note("req.err", err.Error())
 				return
@@ -430,4 +442,32 @@ func pluginProgram(p *simrt.Proc, raw json.RawMessage) int {
 		p.Hang()
 	}
 	return sc.Exit
+}
+
+// pluginPredatesTrailer: a proper release version below v0.4.2 (what such an executable was built
+// against decides how it decodes; pseudo, (devel) and missing versions say nothing and decode as today).
+func pluginPredatesTrailer(v string) bool {
+	if len(v) < 2 || v[0] != 'v' {
+		return false
+	}
+	core := v[1:]
+	if i := strings.IndexAny(core, "-+"); i >= 0 {
+		core = core[:i]
+	}
+	parts := strings.Split(core, ".")
+	if len(parts) != 3 {
+		return false
+	}
+	var n [3]int
+	for i, s := range parts {
+		x, err := strconv.Atoi(s)
+		if err != nil {
+			return false
+		}
+		n[i] = x
+	}
+	if n[0] != 0 {
+		return false
+	}
+	return n[1] < 4 || (n[1] == 4 && n[2] < 2)
 }
